@@ -11,7 +11,7 @@ import (
 
 func init() {
 	register("C17", propMeta{
-		Explanation: "E-GUARD + E-PAIR + E-CHAN + E-PROV on common/turbotunnel. O-1 errors only after close: in RedialPacketConn.ReadFrom/WriteTo every return with a non-nil error is reachable only through a '<-closed' select case; closed is closed only in closeWithError, called only from Close and from the err != nil edge of dialContext. O-2 one carrier at a time, each closed: in dialLoop a carrier obtained on the err == nil edge reaches conn.Close() on every path before the next dial or a return; exchange is called synchronously. O-3 no goroutine outlives its carrier: in every goroutine literal of the package each blocking select has a case on the connection's closed channel, and each unconditional send goes to a channel made by the enclosing call whose constant capacity covers the sends the goroutine can perform before returning. O-4 copy-on-enqueue, never block: every send on a packet queue is inside a select with default and sends a slice made by this invocation, filled by copy from the caller's buffer, of the caller's length; no []byte parameter flows into a send, a struct field or a global; both ReadFrom methods return copy(p, queued). O-5 close-once and publication order: close(closed) only inside closeOnce.Do and after err.Store. O-6 closed means failed: ReadFrom/WriteTo/QueueIncoming test closed (polling) before touching a queue. O-7 expiry shape: removeExpired pops only while now.Sub(oldest.LastSeen) >= timeout with the unscaled timeout; Less orders by LastSeen.Before; the sweeper sleeps timeout/2 and passes the same timeout; SendQueue refreshes LastSeen before heap.Fix/heap.Push; Pop closes the removed queue. Each clause is necessary: e.g. an unbuffered error channel retains one goroutine and carrier per redial.",
+		Explanation: "E-GUARD + E-PAIR + E-CHAN + E-PROV on common/turbotunnel. O-1 errors only after close: in RedialPacketConn.ReadFrom/WriteTo every return with a non-nil error is reachable only through a '<-closed' select case; closed is closed only in closeWithError, called only from Close and from the err != nil edge of dialContext. O-2 one carrier at a time, each closed: in dialLoop a carrier obtained on the err == nil edge reaches conn.Close() on every path before the next dial or a return; exchange is called synchronously. O-3 no goroutine outlives its carrier: in every goroutine literal of the package each blocking select has a case on the connection's closed channel, and each unconditional send goes to a channel made by the enclosing call whose constant capacity covers the sends the goroutine can perform before returning. O-4 copy-on-enqueue, never block: every send on a packet queue is inside a select with default and sends a slice made by this invocation, filled by copy from the caller's buffer, of the caller's length; no []byte parameter flows into a send, a struct field or a global; both ReadFrom methods return copy(p, queued). O-5 close-once and publication order: close(closed) only inside closeOnce.Do and after err.Store. O-6 closed means failed: ReadFrom/WriteTo/QueueIncoming test closed (polling) before touching a queue. O-7 expiry shape: removeExpired pops only while now.Sub(oldest.LastSeen) >= timeout with the unscaled timeout; Less orders by LastSeen.Before; the sweeper sleeps timeout/2 and passes the same timeout; SendQueue refreshes LastSeen before heap.Fix/heap.Push; Pop closes the removed queue. Each clause is necessary: e.g. an unbuffered error channel retains one goroutine and carrier per redial. Added after the second seeding round: O-7 also requires that Push/Pop/Swap of clientMapInner have no static caller outside the interface methods (container/heap only); named methods started with go count as goroutine bodies when that go statement is their only use.",
 		NotDecided:  "FIFO order of Go channels (language guarantee), actual timing of the sweeper, KCP behaviour above the adapters.",
 		Assumptions: []string{"conn.Close() unblocks a carrier's pending ReadFrom/WriteTo (net.PacketConn contract)", "Go channel semantics"},
 	}, runC17)
